@@ -39,7 +39,7 @@ for m in M:
             print(f"SKIP {name}: does not compile: {b.stderr[:200]}"); bad += 1; continue
         t0 = time.time()
         cmd = [QV, "check", "-prop", prop, "-tier", "quick", "-repo", d] + (["-norac"] if norac else [])
-        p = subprocess.run(cmd, capture_output=True, text=True, cwd="/verif")
+        p = subprocess.run(cmd, capture_output=True, text=True, cwd="/verif", env=dict(os.environ, QV_EVIDENCE_DIR=os.path.join(d, ".qv-evidence")))
         viol = [l for l in p.stdout.splitlines() if l.startswith("VIOLATION")]
         if p.returncode == 1 and viol:
             ok += 1
